@@ -448,10 +448,10 @@ def specs(tier, factory="mk"):
             if not q:
                 out.append((MOD, factory, (t, (2, 2))))
                 out.append((MOD, factory, (t, (1, 1), True)))
-                out.append((MOD, factory, (t, (3, 2))))
+                if t in ("mutual", "allof"):
+                    out.append((MOD, factory, (t, (3, 2))))  # (three-character names on every template cost hours)
         elif not q:
             out.append((MOD, factory, (t, (2, 1, 1))))
-            out.append((MOD, factory, (t, (1, 2, 1))))
             out.append((MOD, factory, (t, (1, 1, 1), True)))
     if q:
         out.append((MOD, factory, ("mutual", (1, 1), True)))
